@@ -40,6 +40,13 @@ def run(ctx):
                         if rep % 3 == 2 and dim == 4:   # spacelike / tachyonic
                             t = math.sqrt(x * x + y * y + z * z) * rng.uniform(0.1, 0.9)
                         co = H.from_cart(names, x, y, z, t)
+                        if stratum == "generic" and rep % 2 == 1:   # stored coordinates drawn directly
+                            co = H.stored_stratum(rng, names)
+                            x, y = (co["x"], co["y"]) if "x" in co else (co["rho"] * math.cos(co["phi"]), co["rho"] * math.sin(co["phi"]))
+                            rh = math.hypot(x, y)
+                            z = co["z"] if "z" in co else (rh / math.tan(co["theta"]) if "theta" in co else (rh * math.sinh(co["eta"]) if "eta" in co else 0.0))
+                            if dim == 4:
+                                t = co["t"] if "t" in co else math.sqrt(max(math.copysign(co["tau"] ** 2, co["tau"]) + x * x + y * y + z * z, 0.0))
                         v = H.obj(vector, names, co, momentum=bool(rep % 2))
                         site = f"object:{dim}D:{sysn}"
                         inp = {"v": repr(v), "stratum": stratum}
